@@ -85,7 +85,7 @@ class Xpak:
             source_is_path = isinstance(target_source, str)
             if source_is_path:
                 try:
-                    start = os.lstat(target_source).st_size
+                    start = os.stat(target_source).st_size
                 except FileNotFoundError:
                     start = 0
             else:
